@@ -52,6 +52,32 @@ func SolveAll(obls []*Obligation, dir string, timeout int) float64 {
 		}
 	}
 	total := 0.0
+	// phase G: quantified hypotheses instantiated at the index terms of the query and then dropped (ground query)
+	var gq []*Obligation
+	for _, o := range obls {
+		if !o.Cover && (hasQuant(o.Hyp) || hasQuant(o.Goal)) {
+			o.ground = true
+			o.relaxed = hasNL(o.Hyp, nlm) || hasNL(o.Goal, nlm)
+			gq = append(gq, o)
+		}
+	}
+	if len(gq) > 0 {
+		total += solvePhase(gq, dir, minInt(timeout, 5), false)
+		for _, o := range gq {
+			o.ground = false
+			o.relaxed = false
+			if o.Status == "discharged" {
+				o.Result.Solver += "(ground-instantiated)"
+			}
+		}
+		var keep []*Obligation
+		for _, o := range nl {
+			if o.Status != "discharged" {
+				keep = append(keep, o)
+			}
+		}
+		nl = keep
+	}
 	if len(nl) > 0 {
 		for _, o := range nl {
 			o.relaxed = true
@@ -106,12 +132,17 @@ func solvePhase(obls []*Obligation, dir string, timeout int, withAxioms bool) fl
 			asserts = []*Term{o.Hyp, o.Goal}
 		} else {
 			h, g := prepareQuantified(o.Hyp, o.Goal)
+			f := triggerInstantiate(And(h, Not(g)))
+			f = And(f, modaddrFacts(f))
+			if o.ground {
+				f = dropQuantAsserted(f, true)
+			}
 			if o.relaxed {
 				memo := map[*Term]*Term{}
-				h, g = relaxNL(h, memo), relaxNL(g, memo)
-				h = And(h, nlFacts(h, g))
+				f = relaxNL(f, memo)
+				f = And(f, nlFacts(f))
 			}
-			asserts = []*Term{h, Not(g)}
+			asserts = []*Term{f}
 			if withAxioms {
 				asserts = append(asserts, o.Axioms...)
 			}
@@ -126,6 +157,9 @@ func solvePhase(obls []*Obligation, dir string, timeout int, withAxioms bool) fl
 		}
 		if o.relaxed {
 			fname += ".relaxed"
+		}
+		if o.ground {
+			fname += ".ground"
 		}
 		if conj.Op == "false" {
 			o.Result = SolveResult{Status: "unsat", Solver: "simplifier"}
